@@ -15,10 +15,45 @@ mod gen;
 mod relations;
 mod edits;
 mod mappost;
+mod fuzz;
 
 use util::*;
 
+#[cfg(feature = "tracing")]
+mod sink {
+    //! a minimal subscriber that formats every field of every event, so that the
+    //! Display / source chains of the crate's error types actually run
+    use tracing::field::{Field, Visit};
+    use tracing::{span, Event, Metadata, Subscriber};
+    pub struct Sink;
+    struct V;
+    impl Visit for V {
+        fn record_debug(&mut self, _: &Field, v: &dyn std::fmt::Debug) {
+            let _ = format!("{v:?}");
+        }
+    }
+    impl Subscriber for Sink {
+        fn enabled(&self, _: &Metadata<'_>) -> bool {
+            true
+        }
+        fn new_span(&self, _: &span::Attributes<'_>) -> span::Id {
+            span::Id::from_u64(1)
+        }
+        fn record(&self, _: &span::Id, _: &span::Record<'_>) {}
+        fn record_follows_from(&self, _: &span::Id, _: &span::Id) {}
+        fn event(&self, e: &Event<'_>) {
+            e.record(&mut V);
+        }
+        fn enter(&self, _: &span::Id) {}
+        fn exit(&self, _: &span::Id) {}
+    }
+}
+
 fn main() {
+    #[cfg(feature = "tracing")]
+    {
+        let _ = tracing::subscriber::set_global_default(sink::Sink);
+    }
     let args = Args::parse();
     install_panic_hook();
     start_watchdog(args.out.clone(), 20);
@@ -45,6 +80,7 @@ fn main() {
         ("edits", "relations") => edits::relations(&args, &mut s),
         ("mappost", "replay") => mappost::replay(&args, &mut s),
         ("mappost", "relations") => mappost::relations(&args, &mut s),
+        ("c01", "explore") => fuzz::explore(&args, &mut s),
         (m, o) => {
             eprintln!("unknown module/mode {m} {o}");
             std::process::exit(2);
